@@ -58,7 +58,10 @@ def b_answers(job):
     rng = random.Random(job["seed"])
     g = G.Gen(rng, job["logic"])
     queries = [{"c": "get-model"}] if not g.arr else []
-    body = G.random_history(g, rng, n_assert=job.get("n_assert", 5), queries=queries, fdepth=job.get("fdepth", 2))
+    if job.get("mode") == "interface":
+        body = G.interface_history(g, rng, queries=queries)
+    else:
+        body = G.random_history(g, rng, n_assert=job.get("n_assert", 5), queries=queries, fdepth=job.get("fdepth", 2))
     cfg = job.get("cfg", "c0")
     cmds = G.preamble(g, _opts("models", cfg) if not g.arr else _opts(cfg)) + body
     fam = C.Family(g)
@@ -95,7 +98,10 @@ def b_models(job):
     if ts:
         queries.append({"c": "get-value", "ts": ts})
     queries.append({"c": "get-assignment"})
-    body = G.random_history(g, rng, n_assert=job.get("n_assert", 4), p_named=0.6, queries=queries, fdepth=2)
+    if job.get("mode") == "interface":
+        body = G.interface_history(g, rng, queries=queries)
+    else:
+        body = G.random_history(g, rng, n_assert=job.get("n_assert", 4), p_named=0.6, queries=queries, fdepth=2)
     cfg = job.get("cfg", "c0")
     cmds = G.preamble(g, _opts("models", "assign", cfg)) + body
     fam = C.Family(g)
@@ -372,13 +378,84 @@ def b_cores(job):
     fam.add_run("s", cfg, "main", cmds)
     return _result(fam, job)
 
+def farkas_system(g, rng):
+    """an unsatisfiable conjunction of linear inequalities built from its Farkas certificate: rows over A-local and
+    shared variables whose local parts cancel under positive weights, rows over B-local and shared variables likewise,
+    and one closing row that makes the weighted sum a negative constant.  Every row is a named assertion."""
+    tb, S = g.tb, g.num
+    vs = list(g.nums)
+    rng.shuffle(vs)
+    nl = rng.choice([2, 2, 3])
+    la, lb, sh = vs[:nl], vs[nl:nl + 2], vs[nl + 2:]
+    def lin(coefs, const):
+        parts = []
+        for v, c in coefs.items():
+            if c == 0: continue
+            parts.append(v if c == 1 else tb.app("*", [tb.num(c, S), v]))
+        if const != 0 or not parts:
+            parts.append(tb.num(const, S))
+        return parts[0] if len(parts) == 1 else tb.app("+", parts)
+    rows = []      # (coefs dict, const, weight)
+    def block(local, nrows):
+        blk = []
+        for _ in range(nrows):
+            co = {v: rng.choice([-2, -1, 1, 1, 2]) for v in rng.sample(local, rng.randint(1, len(local)))}
+            for v in rng.sample(sh, rng.randint(1, min(2, len(sh)))):
+                co[v] = rng.choice([-2, -1, 1, 2])
+            blk.append((co, rng.randint(-2, 2), rng.choice([1, 1, 2, 3])))
+        # closing row of the block: cancels the local variables, weight 1
+        co = {}
+        for c0, _, w in blk:
+            for v in local:
+                co[v] = co.get(v, 0) - w * c0.get(v, 0)
+        for v in rng.sample(sh, rng.randint(1, min(2, len(sh)))):
+            co[v] = rng.choice([-1, 1, 2])
+        blk.append((co, rng.randint(-2, 2), 1))
+        return blk
+    A = block(la, rng.randint(2, 4))
+    B = block(lb, rng.randint(1, 2))
+    co, const = {}, 0
+    for c0, k0, w in A + B:
+        for v in sh:
+            co[v] = co.get(v, 0) - w * c0.get(v, 0)
+        const -= w * k0
+    B.append((co, const - rng.choice([1, 1, 2]), 1))
+    cmds, na, nb = [], [], []
+    for i, (c0, k0, _) in enumerate(A + B):
+        t = lin(c0, k0)
+        f = tb.app(">=", [t, tb.num(0, S)]) if rng.random() < 0.7 else tb.app("<=", [tb.num(0, S), t])
+        nm = ("a%d" if i < len(A) else "b%d") % i
+        (na if i < len(A) else nb).append(nm)
+        cmds.append({"c": "assert", "t": f, "nm": nm, "inner": []})
+    rng.shuffle(cmds)
+    return cmds, na, nb
+
 def b_itp(job):
     """C08 C09: interpolants for random A/B splits and sequences."""
     rng = random.Random(job["seed"])
-    g = G.Gen(rng, job["logic"], box=True)
     opts = _opts("itp")
     for k, v in job.get("itp_opts", []):
         opts.append((k, v))
+    if job.get("mode") == "farkas":
+        g = G.Gen(rng, job["logic"], box=False, nnum=rng.choice([6, 7, 8]))
+        body, na, nb = farkas_system(g, rng)
+        ngroups = job.get("groups", 2)
+        out = body + [{"c": "check-sat"}]
+        allnames = na + nb
+        if ngroups == 2:
+            out.append({"c": "get-interpolants", "groups": [sorted(na), sorted(nb)]})
+            out.append({"c": "get-interpolants", "groups": [sorted(nb), sorted(na)]})
+        for _ in range(job.get("splits", 2)):
+            sh = allnames[:]
+            if rng.random() < 0.5:
+                rng.shuffle(sh)
+            cuts = sorted(rng.sample(range(1, len(sh)), ngroups - 1))
+            out.append({"c": "get-interpolants", "groups": [sorted(sh[a:b]) for a, b in zip([0] + cuts, cuts + [len(sh)])]})
+        cfg = job.get("cfg", "c0")
+        fam = C.Family(g)
+        fam.add_run("s", cfg, "main", G.preamble(g, opts + _opts(cfg)) + out)
+        return _result(fam, job)
+    g = G.Gen(rng, job["logic"], box=True)
     body = unsat_biased_body(g, rng, n_named=job.get("n_named", 4), p_named=1.0, nested=False,
                              histories=job.get("histories", True), n_atoms=job.get("n_atoms", 3))
     # after every check-sat: interpolation requests over the names active there
@@ -453,10 +530,22 @@ def b_reject(job):
     nbad = rng.randint(1, 3)
     positions = sorted(rng.sample(range(len(body) + 1), min(nbad, len(body) + 1)))
     used_names = set()
+    scopes = [{"defs": [], "names": []}]          # what the script has introduced, per push level
     for i, c in enumerate(body):
         while positions and positions[0] == i:
             positions.pop(0)
             text, why = rng.choice(bads)
+            # rejected commands that collide with what is in scope: a second definition of a defined function (at
+            # the same or at a deeper level), a second use of an active name
+            indefs = [(d, lv) for lv, sc in enumerate(scopes) for d in sc["defs"]]
+            innames = [n for sc in scopes for n in sc["names"]]
+            x = rng.random()
+            if indefs and x < 0.45:
+                d, lv = rng.choice(indefs)
+                text = G.render_cmd(d, g.tb)
+                why = "function defined twice (first at level %d, now at level %d)" % (lv, len(scopes) - 1)
+            elif innames and x < 0.6:
+                text, why = "(assert (! p0 :named %s))" % S.quote_sym(rng.choice(innames)), "name in use"
             if text == "(get-model)" and (kind != "models" or (i > 0 and body[i - 1]["c"] in ("check-sat", "get-model"))):
                 text, why = "(pop 9)", "pop deeper than the stack"
             if "zz1" in text or "zz2" in text:
@@ -466,6 +555,14 @@ def b_reject(job):
                 used_names.add(nm)
             dirty.append({"c": "raw", "text": text, "must": "reject", "why": why, "ci": 0})
         dirty.append(dict(c))
+        if c["c"] == "push":
+            scopes += [{"defs": [], "names": []} for _ in range(c.get("n", 1))]
+        elif c["c"] == "pop":
+            del scopes[max(1, len(scopes) - c.get("n", 1)):]
+        elif c["c"] == "define":
+            scopes[-1]["defs"].append(c)
+        elif c["c"] == "assert":
+            scopes[-1]["names"] += ([c["nm"]] if c.get("nm") else []) + [n for n, _ in c.get("inner", [])]
     fam = C.Family(g)
     fam.add_run("s", "c0", "main", clean)
     fam.add_run("s", "c0", "reject", dirty, base="s")
